@@ -177,7 +177,7 @@ static void mode_dft(int count)
     int L = Ls[below(sizeof(Ls) / sizeof(*Ls))], M = below(3)? 1 : Ms[below(sizeof(Ms) / sizeof(*Ms))], nRaw = 0, fdok;
     double Fn = below(3)? (double)(L > M? L : M) : below(2)? (double)L : uni(1, 3) * L;
     double Fp = uni(.5, .95), Fs = below(4)? uni(Fp + .05 > 1? Fp + .05 : 1, 1.5) : uni(Fp + .03, 1), att = uni(60, 180), mult = 1;
-    double phase; unsigned mn = 8 + below(6), lg = 13 + below(6);
+    double phase; unsigned mn = 8 + below(6), lg = below(3)? 13 + below(6) : 8 + below(5);   /* small `large`: where the padding loop acts */
     switch (below(6)) { case 0: case 1: phase = 50; break; case 2: phase = 0; break; case 3: phase = 100; break; case 4: phase = 25; break; default: phase = (double)below(401) / 4; }
     if (L == 1 && M == 1) M = 2;
     lsx_design_lpf(Fp, Fs, -Fn, att, &nRaw, -1, -1.);       /* dummy run, modulo 1: the Kaiser estimate itself */
@@ -189,10 +189,14 @@ static void mode_dft(int count)
     fdok = !lsx_is_power_of_2(L) || st.block_len % L == 0;
     printf("D dft_L %d\nD dft_phase %s\nD dft_FnEqL %d\nD dft_fdomain %s\nD dft_taps %d\n", L, phase == 50? "linear" : "non-linear", Fn == L,
         !lsx_is_power_of_2(L)? "time-domain" : fdok? "aligned" : "misaligned", f->num_taps < 100? 100 : f->num_taps < 1000? 1000 : 100000);
-    printf("> dft lin=%d L=%d M=%d fnEqL=%d fsLe1=%d nRaw=%d tpLen=%d tpPost=%d dftLen=%d\n", phase == 50, L, M, Fn == L, Fs <= 1, nRaw,
-        f->num_taps, f->post_peak, f->dft_length);
-    printf("< dft nDesign=%d numTaps=%d postPeak=%d preload=%d clk=%d step=%d blockLen=%d isz=%d fdok=%d\n", g_tp_calls? g_tp_len_in : f->num_taps,
-        f->num_taps, f->post_peak, st.preload, st.at.integer, st.step.integer, st.block_len, st.input_size, fdok);
+    {
+      int raw = set_dft_length(f->num_taps, (int)mn, (int)lg);       /* the real (static) function: its answer before the padding loop */
+      printf("D dft_padding %s\n", raw == f->dft_length? "none" : "padded");
+      printf("> dft lin=%d L=%d M=%d fnEqL=%d fsLe1=%d nRaw=%d tpLen=%d tpPost=%d dftLen=%d\n", phase == 50, L, M, Fn == L, Fs <= 1, nRaw,
+          f->num_taps, f->post_peak, raw);
+    }
+    printf("< dft nDesign=%d dftLen=%d numTaps=%d postPeak=%d preload=%d clk=%d step=%d blockLen=%d isz=%d fdok=%d\n", g_tp_calls? g_tp_len_in : f->num_taps,
+        f->dft_length, f->num_taps, f->post_peak, st.preload, st.at.integer, st.step.integer, st.block_len, st.input_size, fdok);
     if ((phase != 50) != (g_tp_calls == 1)) printf("X transform-calls phase=%g calls=%d\n", phase, g_tp_calls);
     {
       fn_t const * RDFT_CB = _soxr_rdft64_cb;
